@@ -52,3 +52,20 @@ package olric
 //@   ensures #expiry_ex [C15]: result.EX == ite(c.HasEX, float64(c.EX) / float64(1000000000), float64(0))
 //@   ensures #expiry_exat [C15]: result.EXAT == ite(!c.HasEX && !c.HasPX && c.HasEXAT, float64(c.EXAT) / float64(1000000000), float64(0))
 //@   modifies nothing
+
+// C15 (pipeline): a queued command is addressed by (partition, index); the pair handed back addresses exactly the
+// command just queued, the partition is the key's partition, and the addresses handed out before stay valid.
+//@ func getPipelineCmdsFromPool() []redis.Cmder
+//@   props C15
+//@   trusted
+//@   ensures #empty: len(result) == 0
+//@   modifies nothing
+
+//@ func (dp *DMapPipeline) addCommand(key string, cmd redis.Cmder) (uint64, int)
+//@   props C15
+//@   flag termination
+//@   requires #wired: dp != nil && dp.commands != nil && dp.dm != nil && dp.dm.clusterClient != nil && dp.dm.clusterClient.partitionCount > 0
+//@   ensures #slot [C15]: (result.0 in dp.commands) && 0 <= result.1 && result.1 == len(dp.commands[result.0]) - 1 && dp.commands[result.0][result.1] == cmd
+//@   ensures #earlier_slots_kept [C15]: forall p uint64, i int :: old(p in dp.commands) && 0 <= i && i < old(len(dp.commands[p])) ==>
+//@                (p in dp.commands) && i < len(dp.commands[p]) && dp.commands[p][i] == old(dp.commands[p][i])
+//@   ensures #placement [C15]: result.0 < dp.dm.clusterClient.partitionCount
